@@ -461,3 +461,33 @@ def write_evidence(prop: str, data: dict) -> str:
         json.dump(data, f, indent=1, default=_json_default, allow_nan=True)
     os.replace(tmp, path)
     return path
+
+
+def confirm_on_legal_history(doc: dict, res: dict, execute_full, private_ops):
+    """Scribbling over an object's *private* arrays is a search accelerator,
+    not something a caller can do: a violation found in a scenario with such
+    operations only counts if it is still there after they are removed (a
+    correct implementation may legitimately keep state there, e.g. a cache).
+    Otherwise the scenario is recorded as held, with a probe."""
+    def has(d):
+        return any(o.get("op") in private_ops for o in d.get("ops", [])) or (
+            d.get("twin") is not None and has(d["twin"]))
+
+    def strip(d):
+        out = {**d, "ops": [o for o in d.get("ops", [])
+                            if o.get("op") not in private_ops]}
+        if d.get("twin") is not None:
+            out["twin"] = strip(d["twin"])
+        return out
+    if res.get("violation") is None or not has(doc):
+        return res
+    legal = execute_full(strip(doc))
+    if legal.get("violation") is None:
+        res["violation"] = None
+        bump(res["probes"], "alarm_needs_impossible_private_state")
+        res["events"].append(["held-on-legal-history"])
+    else:
+        res["violation"] = legal["violation"]
+        res["violation"]["confirmed_without_private_scribbles"] = True
+        res["events"].append(["confirmed-on-legal-history"])
+    return res
